@@ -31,6 +31,8 @@ def strat(tier):
         'cont': st.one_of(st.none(), st.none(), st.lists(st.integers(15, 60), min_size=1, max_size=2)),
         'seed': st.integers(0, 2 ** 31 - 1),
         'big_n': st.just(1),
+        # location of the first parameter's prior: a parameter whose mean is huge relative to its spread (|mean| / sd ~ 1e5)
+        'shift': st.sampled_from([0.0, 0.0, 1e5]),
     })
 
 
@@ -84,11 +86,14 @@ def build(case):
     import elfi
     m = elfi.ElfiModel(name='c07model')
     ps = []
-    for pn, k in zip(case['pnames'], _kinds(case)):
+    for pi, (pn, k) in enumerate(zip(case['pnames'], _kinds(case))):
+        L = float(case.get('shift', 0.0)) if pi == 0 else 0.0
         if k == 'uniform':
-            p = elfi.Prior('uniform', 0, 1, model=m, name=pn)
+            p = elfi.Prior('uniform', L, 1, model=m, name=pn)
         elif k == 'normal':
-            p = elfi.Prior('norm', 0, 2, model=m, name=pn)
+            p = elfi.Prior('norm', L, 2, model=m, name=pn)
+        elif k == 'custom-unif' and pi == 0:
+            p = elfi.Prior(_custom_unif(), L, 1, model=m, name=pn)
         elif k == 'child-norm':
             p = elfi.Prior('norm', ps[-1], 0.5, model=m, name=pn)
         elif k == 'child-scale':
@@ -115,12 +120,13 @@ def prior_logpdf(case, names, th):
     tot = np.zeros(len(th))
     prev = None
     with np.errstate(all='ignore'):
-        for pn, k in zip(case['pnames'], _kinds(case)):
+        for pi, (pn, k) in enumerate(zip(case['pnames'], _kinds(case))):
             x = col[pn]
+            L = float(case.get('shift', 0.0)) if pi == 0 else 0.0
             if k in ('uniform', 'custom-unif'):
-                v = ss.uniform(0, 1).logpdf(x)
+                v = ss.uniform(L, 1).logpdf(x)
             elif k == 'normal':
-                v = ss.norm(0, 2).logpdf(x)
+                v = ss.norm(L, 2).logpdf(x)
             elif k == 'child-norm':
                 v = ss.norm(col[prev], 0.5).logpdf(x)
             elif k == 'child-scale':
@@ -169,8 +175,17 @@ def run_case(case):
         if case['cont']:
             lowest = min(float(p.threshold) for p in res.populations)
             cths = sorted((min(pick(v), lowest) for v in case['cont']), reverse=True)
+            from . import c04
+            first, first_fields = res, c04._fields(res)
             with time_limit(300, 'C07:run-does-not-terminate', 'continued SMC.sample'):
                 res = smc.sample(n, bar=False, thresholds=cths)
+            # the result the first call returned still describes the first call (its populations, thresholds, weights, counts)
+            again = c04._fields(first)
+            changed = sorted(k for k in set(first_fields) | set(again)
+                             if k not in first_fields or k not in again or not np.array_equal(np.asarray(first_fields[k]), np.asarray(again[k]), equal_nan=True))
+            if changed:
+                raise Violation('C07:earlier-result-altered-by-continuing', 'after the continued sample() call the result object returned by the FIRST call '
+                                'changed in %r (it reported %d populations, now %d); %s' % (changed[:6], len([k for k in first_fields if k.endswith(':n_sim') and k.startswith('pop')]), len(first.populations), ctx))
             in_force = in_force + [float(t) for t in cths]
             quant = None if quant is None else quant + [None] * len(cths)
             ths = None if ths is None else ths + cths
